@@ -515,20 +515,47 @@ class Graph:
             yield dict(init=self.nodes[root], steps=steps)
 
 
-def sim_behaviours(path):
-    """Split a -simulate emit file into behaviours. Records carry l = TLCGet("level") of the source state; l = 1
-    starts a new behaviour. Each behaviour: {init, steps:[{a,r,exp}]}."""
-    cur = None
+def sim_behaviours(path, with_fans=False):
+    """Split a -simulate emit file into behaviours {init, steps:[{a,r,exp}]}. TLC evaluates the action constraint for *every*
+    candidate successor of the state it is in, so the file holds, per visited state, the group of all its outgoing
+    transitions (same level l, same source state); the successor TLC chose is the source of the next group. With
+    with_fans=True also returns, for every visited state, the path to it plus each candidate transition (all of them are
+    transitions of the specification): (behaviours, fans)."""
+    groups = []
     with open(path) as f:
+        cur = None
         for ln in f:
             e = json.loads(ln)
-            if e.get("l") == 1 or cur is None:
-                if cur and cur["steps"]:
-                    yield cur
-                cur = dict(init=e["f"], steps=[])
-            cur["steps"].append(dict(a=e["a"], r=e.get("r"), exp=e["t"]))
-    if cur and cur["steps"]:
-        yield cur
+            if "l" not in e or "f" not in e:
+                continue
+            kf = canon(e.get("fk", e["f"]))
+            if cur is None or cur["l"] != e["l"] or cur["kf"] != kf:
+                cur = dict(l=e["l"], kf=kf, f=e["f"], edges={})
+                groups.append(cur)
+            cur["edges"].setdefault(canon([e["a"], e.get("tk", e["t"])]), e)
+    behaviours, fans = [], []
+    steps, init = [], None
+    for i, g in enumerate(groups):
+        if g["l"] == 1:
+            if steps:
+                behaviours.append(dict(init=init, steps=steps))
+            steps, init = [], g["f"]
+        if with_fans:
+            for e in g["edges"].values():
+                fans.append(dict(init=init, steps=steps + [dict(a=e["a"], r=e.get("r"), exp=e["t"])]))
+        nxt = groups[i + 1] if i + 1 < len(groups) else None
+        chosen = None
+        if nxt is not None and nxt["l"] == g["l"] + 1:
+            for e in g["edges"].values():
+                if canon(e.get("tk", e["t"])) == nxt["kf"]:
+                    chosen = e
+                    break
+        if chosen is None:                      # last step of a behaviour: any candidate is a transition of the spec
+            chosen = next(iter(g["edges"].values()))
+        steps = steps + [dict(a=chosen["a"], r=chosen.get("r"), exp=chosen["t"])]
+    if steps:
+        behaviours.append(dict(init=init, steps=steps))
+    return (behaviours, fans) if with_fans else behaviours
 
 
 def digest(x):
@@ -561,6 +588,35 @@ def report_mismatches(ctx, binary, mode, result, *, args=(), what_prefix="", max
                                          case=json.loads(case) if case else None, mismatch=m), confirm=confirm):
             n += 1
     return n
+
+
+def judge(ctx, module_dir, module, cfg, lines, env_var="OBS", invariants=None, name="observed"):
+    """INV-mode verdicts: `lines` are observations of the implementation (JSON objects, one per initial state of an *Obs module
+    whose Init picks line `idx` and sets lastAct = <<"observed", idx>>). TLC evaluates the cfg's invariants (or only
+    `invariants`) on every line in one run (-continue). Returns [(line_index, violated_invariant)], first violated invariant
+    per line."""
+    if not lines:
+        return []
+    path = os.path.join(ctx.work, name + ".ndjson")
+    with open(path, "w") as f:
+        for l in lines:
+            f.write(json.dumps(l) + "\n")
+    cfg_path = cfg
+    if invariants is not None:
+        txt = open(os.path.join(SPECS, module_dir, cfg)).read()
+        txt = re.sub(r"(?m)^INVARIANTS?\b.*$", "INVARIANTS " + " ".join(invariants), txt)
+        cfg_path = os.path.join(ctx.work, name + "_" + os.path.basename(cfg))
+        open(cfg_path, "w").write(txt)
+    r = ctx.tlc(module_dir, module, cfg_path, name=name, env={env_var: path}, expect_violation=True, workers=1, extra_args=["-continue"])
+    out, cur = [], None
+    for m in re.finditer(r'Invariant (\w+) is violated|lastAct = <<"observed", (\d+)>>', open(r.log_path).read()):
+        if m.group(1):
+            cur = m.group(1)
+        elif cur is not None:
+            out.append((int(m.group(2)) - 1, cur)); cur = None
+    if r.violated and not out:
+        raise InfraError("could not attribute the violated invariant %s to an observation (log %s)" % (r.violated, r.log_path))
+    return out
 
 
 def generic_replay(ctx, path):
